@@ -13,7 +13,7 @@ import copy
 from typing import Dict, Iterator, List, Optional, Tuple
 
 from .cfg import Path, enumerate_paths
-from .index import FuncInfo, body_without_docstring
+from .index import FuncInfo, body_without_docstring, src
 
 MAX_NODES = 4000
 
@@ -106,3 +106,33 @@ def walk_paths(fi: FuncInfo, limit: int = 20000) -> Iterator[Tuple[Path, List[Tu
                     if it.optional_vars is not None:
                         _bind(env, it.optional_vars, None)
         yield p, seq
+
+
+
+def expand_hook(cls, call: ast.AST, ctor_names=("self.__class__", "type(self)")) -> ast.AST:
+    """`self.m(a, b, k=c)` where m (resolved on cls) does nothing but `return <constructor>(...its parameters...)` -> the constructor call
+    with the arguments substituted.  Anything else is returned unchanged.  (Construction hooks such as MultivariateNormal._new_like.)"""
+    if not (isinstance(call, ast.Call) and isinstance(call.func, ast.Attribute) and isinstance(call.func.value, ast.Name) and call.func.value.id == "self"):
+        return call
+    m = cls.lookup(call.func.attr) if cls is not None else None
+    if m is None:
+        return call
+    body = body_without_docstring(m.node)
+    if len(body) != 1 or not isinstance(body[0], ast.Return) or not isinstance(body[0].value, ast.Call):
+        return call
+    inner = body[0].value
+    if src(inner.func) not in ctor_names and src(inner.func) != cls.name:
+        return call
+    params = m.params[1:]
+    env: Dict[str, ast.AST] = {}
+    for i, a in enumerate(call.args):
+        if isinstance(a, ast.Starred) or i >= len(params):
+            return call
+        env[params[i]] = a
+    for k in call.keywords:
+        if k.arg is None or k.arg not in params:
+            return call
+        env[k.arg] = k.value
+    if set(env) != set(params):
+        return call
+    return inline(inner, env)
